@@ -1537,7 +1537,7 @@ func checkShowJS(t reflect.Type, types []reflect.Type) error {
 		if err != nil {
 			return fmt.Errorf("cannot show map with %s element as JavaScript", t.Elem())
 		}
-	case reflect.Pointer, reflect.UnsafePointer:
+	case reflect.Pointer:
 		return checkShowJS(t.Elem(), append(types, t))
 	case reflect.Slice:
 		if err := checkShowJS(t.Elem(), append(types, t)); err != nil {
@@ -1593,7 +1593,7 @@ func checkShowJSON(t reflect.Type, types []reflect.Type) error {
 		if err != nil {
 			return fmt.Errorf("cannot show map with %s element as JSON", t.Elem())
 		}
-	case reflect.Pointer, reflect.UnsafePointer:
+	case reflect.Pointer:
 		return checkShowJSON(t.Elem(), append(types, t))
 	case reflect.Slice:
 		if err := checkShowJSON(t.Elem(), append(types, t)); err != nil {
